@@ -60,6 +60,34 @@ func main() {
 		}
 		rep, hit := decodeWitnessSearch(st, os.Args[2], os.Args[3])
 		fmt.Println(rep, hit)
+	case "probes": // verif probes <repo>: run every replay probe; on a tree where the properties hold none may report a hit
+		_, st, err := setup(os.Args[2])
+		if err != nil {
+			fmt.Println(err)
+			os.Exit(2)
+		}
+		bad := 0
+		run := func(name string, f func() (string, bool)) {
+			rep, hit := f()
+			fmt.Printf("== %s: hit=%v\n%s\n", name, hit, tail(rep, 1200))
+			if hit {
+				bad++
+			}
+		}
+		repo := os.Args[2]
+		run("witness search v3", func() (string, bool) { return decodeWitnessSearch(st, repo, "v3/metric") })
+		run("witness search v2", func() (string, bool) { return decodeWitnessSearch(st, repo, "v2/metric") })
+		run("purity v3", func() (string, bool) { return purityProbe(repo, "v3/metric") })
+		run("purity v2", func() (string, bool) { return purityProbe(repo, "v2/metric") })
+		run("purity report", func() (string, bool) { return purityProbe(repo, "v3/report") })
+		run("template", func() (string, bool) { return templateProbe(repo) })
+		run("report", func() (string, bool) { return reportProbe(st, repo) })
+		run("sentinels", func() (string, bool) { return sentinelProbe(repo) })
+		run("race", func() (string, bool) { return raceReplay(repo) })
+		fmt.Printf("probes with a hit: %d\n", bad)
+		if bad > 0 {
+			os.Exit(1)
+		}
 	default:
 		fmt.Fprintln(os.Stderr, "unknown command", os.Args[1])
 		os.Exit(2)
